@@ -216,6 +216,21 @@ func TestCorpusC17(t *testing.T) {
 		c17Run(c17Case{fmt.Sprintf("one validation with %d nested constraints", width), p, baseData}, sigs)
 		n++
 	}
+	// data numbers the engine cannot represent (its comparison panics with "illegal value")
+	for _, num := range []string{"1e99999999999", "-1e99999999999", "1e-99999999999", "1e400", "123456789012345678901234567890123456789012345678901234567890"} {
+		p := "#%Validation Profile 1.0\nprofile: P\nviolation:\n  - v1\nvalidations:\n  v1:\n    targetClass: apiContract.WebAPI\n    message: m\n    propertyConstraints:\n      core.name:\n        minInclusive: 1\n      core.version:\n        maxExclusive: 5\n"
+		d := `{"@graph":[{"@id":"http://x/api","@type":"http://a.ml/vocabularies/apiContract#WebAPI","http://a.ml/vocabularies/core#name":` + num + `,"http://a.ml/vocabularies/core#version":[` + num + `,1]}]}`
+		c17Run(c17Case{"data number " + num, p, d}, sigs)
+		n++
+	}
+	// custom rego that does not parse (in a validation, in rego_extensions)
+	for _, body := range []string{"$result = (((", "$result = true }", "x := [1, 2\n      $result = true", "package other\n      $result = true", "import data.x\n      $result = \"", "\"unterminated\n      $result = true"} {
+		p := "#%Validation Profile 1.0\nprofile: P\nviolation:\n  - v1\nvalidations:\n  v1:\n    targetClass: apiContract.WebAPI\n    message: m\n    rego: |\n      " + body + "\n"
+		c17Run(c17Case{"custom rego that does not parse " + strconv.Quote(body), p, baseData}, sigs)
+		p = "#%Validation Profile 1.0\nprofile: P\nviolation:\n  - v1\nrego_extensions: |\n  helper(x) = y {\n  " + body + "\nvalidations:\n  v1:\n    targetClass: apiContract.WebAPI\n    message: m\n    propertyConstraints:\n      core.name:\n        minCount: 1\n"
+		c17Run(c17Case{"rego_extensions that do not parse " + strconv.Quote(body), p, baseData}, sigs)
+		n += 2
+	}
 	// custom rego the engine's own compiler panics on (a call in the domain of `every`: "unreachable" in its type checker)
 	for _, body := range []string{`every x in [lower("A")] { x == "a" }`, `every k, v in {"a": count([1])} { v == 1 }`, `every x in [http.send({"method": "get", "url": "http://127.0.0.1:1"})] { x == x }`} {
 		p := "#%Validation Profile 1.0\nprofile: P\nviolation:\n  - v1\nvalidations:\n  v1:\n    targetClass: apiContract.WebAPI\n    message: m\n    rego: |\n      " + body + "\n      $result = true\n"
